@@ -615,3 +615,11 @@ Print Assumptions put_crash_leaves_empty_directory_refuted.
 Print Assumptions del_crash_leaves_empty_directory_refuted.
 Print Assumptions next_put_repairs.
 Print Assumptions next_put_repairs_after_delete.
+
+(* both operations at once, for the property file *)
+Lemma crash_keeps_other_files_both : forall t k n k', beq k k' = false ->
+  memb k' (t_files (run_dops t (firstn n (put_dops t k)))) = memb k' (t_files t) /\
+  memb k' (t_files (run_dops t (firstn n (del_dops t k)))) = memb k' (t_files t).
+Proof.
+  intros t k n k' H. split; [apply crash_keeps_other_files_gen | apply del_crash_keeps_other_files_gen]; exact H.
+Qed.
